@@ -103,6 +103,11 @@ func genSpec(t *tape.Tape, o SpecOpts) *MsgSpec {
 	s := &MsgSpec{Kind: kinds[t.Choose(len(kinds), "spec.kind")]}
 	s.Payload = genPayload(t, o.BigOK)
 	s.External = genExternal(t)
+	if o.BigOK && len(s.External) > 0 && t.Bool(1, 6, "ext.big") {
+		// externally supplied data is the application's: a transcript, a
+		// document - nothing bounds it
+		s.External = t.Bytes([]int{65535, 65536, 65537, 1 << 17}[t.Choose(4, "ext.big.n")], "ext.big.b")
+	}
 	algIn := func() bool {
 		switch o.AlgPresent {
 		case 1:
